@@ -1033,6 +1033,13 @@ class ArrayIndexer(ShapedArrayIndexer):
         else:
             sharr = self._arr
 
+        if not self._flat_src and len(self._src_shape) > 1:
+            # a non-flat index array into a multidimensional source indexes its first dimension,
+            # so the shaped version must expand to the flat positions of the selected sub-arrays.
+            self._shaped_inst = ShapedMultiIndexer((sharr,), flat_src=False)
+            self._shaped_inst.set_src_shape(self._src_shape)
+            return self._shaped_inst._set_attrs(self)
+
         self._shaped_inst = ShapedArrayIndexer(sharr)
         return self._shaped_inst._set_attrs(self)
 
